@@ -550,7 +550,23 @@ def replay_gating(d):
                                  "verdict": lambda ci, cat, k: table.get(f"{ci}/{k}", True)})
         before = _snapshot(out)
         try:
-            r = (gm0 or GeneratorManager(make_general_verifier())).generate("vstub", None, None, fcp, out)
+            if d.get("entry") == "cli":
+                import contextlib
+                import io
+                from .checks.gating_checks import _schema_file, _CliOutcome
+                from fcp import __main__ as cli
+                srcdir, schema_path = _schema_file()
+                buf = io.StringIO()
+                try:
+                    with contextlib.redirect_stdout(buf):
+                        cli.generate_cmd.callback("vstub", schema_path, out, None, None)
+                finally:
+                    shutil.rmtree(srcdir, ignore_errors=True)
+                shown = [ln for ln in buf.getvalue().splitlines()
+                         if ln.strip() and ln.strip() not in {rec["contents"] for rec in recs}]
+                r = _CliOutcome(shown)
+            else:
+                r = (gm0 or GeneratorManager(make_general_verifier())).generate("vstub", None, None, fcp, out)
         except Exception as e:
             return True, f"generate raised {type(e).__name__}: {e}"
         after = _snapshot(out)
@@ -580,6 +596,18 @@ def replay_gating_real(d):
     from .checks.gating_checks import real_plugin_run
     import json
 
+    if d.get("entry") == "cli":
+        from .checks.gating_checks import real_cli_run
+        p, before, after, said = real_cli_run(d["generator"], d["schema_text"])
+        if not d["expect_ok"]:
+            if before != after:
+                return True, f"`fcp generate` on a rejected schema changed the output directory: {sorted(set(after) ^ set(before))[:4]}"
+            if not said:
+                return True, "`fcp generate` on a rejected schema reported no error"
+            return False, "rejected: error printed, nothing written"
+        if after == before and d["generator"] != "nop":
+            return True, f"`fcp generate` on a well-formed schema wrote nothing: {said[-200:]}"
+        return False, "accepted"
     p, before, after = real_plugin_run(d["generator"], d["schema_text"], d["expect_ok"])
     try:
         st = json.loads((p.stdout.strip().splitlines() or ["{}"])[-1])
